@@ -2113,6 +2113,7 @@ func (c ipamClient) incrementHandle(ctx context.Context, handleID string, blockC
 }
 
 func (c ipamClient) decrementHandle(ctx context.Context, handleID string, blockCIDR net.IPNet, num int, obj *model.KVPair) error {
+	provided := obj != nil
 	for i := range datastoreRetries {
 		var err error
 		// Query the handle if either of these conditions is true:
@@ -2128,6 +2129,11 @@ func (c ipamClient) decrementHandle(ctx context.Context, handleID string, blockC
 
 		_, err = handle.decrementBlock(blockCIDR, num)
 		if err != nil {
+			if i == 0 && provided {
+				// The handle passed in by the caller may be out of date (e.g. it was
+				// pre-fetched); re-read it before giving up.
+				continue
+			}
 			return err
 		}
 
